@@ -11,7 +11,7 @@ import (
 var disable_handler bool
 
 func Handler() bool {
-	if debug.Enabled || disable_handler {
+	if !Enabled() {
 		return false
 	}
 
@@ -20,12 +20,22 @@ func Handler() bool {
 		return false
 	}
 
+	Report(r)
+	return true
+}
+
+// Enabled is false when panics should be left to propagate
+func Enabled() bool {
+	return !debug.Enabled && !disable_handler
+}
+
+// Report writes the crash report for a panic the caller has recovered itself
+// (because it has cleaning up of its own to do afterwards)
+func Report(r any) {
 	_, _ = os.Stderr.WriteString(fmt.Sprintf("Error: %v\n", r))
 	_, _ = os.Stderr.WriteString(_crashStack())
 	_, _ = os.Stderr.WriteString(_crashHostReport())
 	_, _ = os.Stderr.WriteString(crashMessage)
-
-	return true
 }
 
 var crashMessage = `
@@ -40,7 +50,7 @@ Your session state, including stored variables will be retained. However you may
 
 func _crashStack() string {
 	pc := make([]uintptr, 5)
-	l := runtime.Callers(3, pc)
+	l := runtime.Callers(4, pc)
 	frames := runtime.CallersFrames(pc[:l])
 
 	var (
